@@ -431,7 +431,7 @@ class Body:
         return {norm(callee_name(r[1][2])) for r in recs if r[1][0] == "call" and callee_name(r[1][2])}
 
     # ---- expression reconstruction ------------------------------------------------------
-    def expr(self, o, depth=40, _seen=None, expand_named=False):
+    def expr(self, o, depth=40, _seen=None, expand_named=False, at=None):
         """Reconstruct an expression tree for an operand (or place dict). Temporaries with a single
         definition are expanded; named user variables are kept as ('var', name, idx) unless expand_named.
         Result: nested tuples, hashable, comparable."""
@@ -443,14 +443,14 @@ class Body:
             return self._const_expr(o)
         pl = o["pl"] if "pl" in o else o
         l = pl["l"]
-        base = self._local_expr(l, depth, _seen, expand_named)
+        base = self._local_expr(l, depth, _seen, expand_named, at)
         for p in pl.get("p", []):
             if p == "*":
                 base = ("deref", base)
             elif isinstance(p, dict) and "n" in p:
                 base = ("field", base, p["n"])
             elif isinstance(p, dict) and "idx" in p:
-                base = ("index", base, self._local_expr(p["idx"], depth - 1, _seen, expand_named))
+                base = ("index", base, self._local_expr(p["idx"], depth - 1, _seen, expand_named, at))
             elif isinstance(p, dict) and "cidx" in p:
                 base = ("index", base, ("const", p["cidx"]))
             elif isinstance(p, dict) and "variant" in p:
@@ -483,27 +483,69 @@ class Body:
             return ("constbytes", o["ty"], o["bytes"][:64])
         return ("const?", o.get("ty"))
 
-    def _local_expr(self, l, depth, seen, expand_named):
+    def reaching_defs(self, l, at):
+        """Definitions of local l that may reach the entry of / a use inside block `at` (flow-sensitive)."""
+        ds = self.defs().get(l, [])
+        if len(ds) <= 1:
+            return ds
+        # last definition per block
+        byblk = {}
+        for d in ds:
+            if d[0] == "arg":
+                byblk.setdefault(-1, []).append(d)
+            else:
+                byblk.setdefault(d[1], []).append(d)
+        def_blocks = {b for b in byblk if b >= 0}
+        out = []
+        for b, lst in byblk.items():
+            d = lst[-1]
+            if b == -1:
+                if at in self.reachable(0, removed_blocks=def_blocks) or at == 0:
+                    out.append(d)
+                continue
+            if b == at:
+                if d[0] == "stmt":
+                    out.append(d)  # defined earlier in the same block (uses follow their defs in MIR temporaries)
+                    return [d]
+                continue
+            start = [x for x in self.succ(b)] if d[0] == "stmt" else ([d[2]["target"]] if "target" in d[2] else [])
+            others = def_blocks - {b}
+            for s0 in start:
+                if s0 == at or at in self.reachable(s0, removed_blocks=others - {at}):
+                    # if `at` itself redefines l before the use we cannot tell: be conservative, keep d
+                    out.append(d)
+                    break
+        return out
+
+    def _local_expr(self, l, depth, seen, expand_named, at=None):
         name = self.local_name(l)
         if 1 <= l <= self.arg_count:
             return ("arg", l, name)
         if name is not None and (not expand_named or (callable(expand_named) and not expand_named(l))):
             return ("var", name, l)
-        if depth <= 0 or l in seen:
+        if depth <= 0:
             return ("tmp", l)
         ds = self.defs().get(l, [])
+        if len(ds) != 1 and at is not None:
+            ds = self.reaching_defs(l, at)
         if len(ds) != 1:
             return ("var", name, l) if name else ("tmp", l)
         rec = ds[0]
-        seen = seen | {l}
+        key = (l, rec[1] if rec[0] in ("stmt", "call") else -1, rec[2] if rec[0] == "stmt" else None)
+        if key in seen:
+            return ("tmp", l)
+        seen = seen | {key}
+        nat = None
+        if at is not None and rec[0] in ("stmt", "call"):
+            nat = rec[1]
         if rec[0] == "call":
             t = rec[2]
             f = t["func"]
             if f.get("k") == "const" and ("fn" in f):
                 fname = norm(f.get("res") or f["fn"])
             else:
-                fname = ("indirect", self.expr(f, depth - 1, seen, expand_named))
-            return ("call", fname, tuple(self.expr(a, depth - 1, seen, expand_named) for a in t["args"]))
+                fname = ("indirect", self.expr(f, depth - 1, seen, expand_named, at=nat))
+            return ("call", fname, tuple(self.expr(a, depth - 1, seen, expand_named, at=nat) for a in t["args"]))
         if rec[0] == "stmt":
             s = rec[3]
             if s["k"] != "assign" or s["lhs"].get("p"):
@@ -511,29 +553,29 @@ class Body:
             rv = s["rv"]
             k = rv["k"]
             if k == "use":
-                return self.expr(rv["op"], depth - 1, seen, expand_named)
+                return self.expr(rv["op"], depth - 1, seen, expand_named, at=nat)
             if k == "ref":
-                return ("ref", self.expr(rv["pl"], depth - 1, seen, expand_named))
+                return ("ref", self.expr(rv["pl"], depth - 1, seen, expand_named, at=nat))
             if k == "rawptr":
-                return ("rawptr", self.expr(rv["pl"], depth - 1, seen, expand_named))
+                return ("rawptr", self.expr(rv["pl"], depth - 1, seen, expand_named, at=nat))
             if k == "cast":
-                return ("cast", self.expr(rv["op"], depth - 1, seen, expand_named), rv["to"])
+                return ("cast", self.expr(rv["op"], depth - 1, seen, expand_named, at=nat), rv["to"])
             if k == "binop":
-                return ("binop", rv["op"], self.expr(rv["a"], depth - 1, seen, expand_named),
-                        self.expr(rv["b"], depth - 1, seen, expand_named))
+                return ("binop", rv["op"], self.expr(rv["a"], depth - 1, seen, expand_named, at=nat),
+                        self.expr(rv["b"], depth - 1, seen, expand_named, at=nat))
             if k == "unop":
-                return ("unop", rv["op"], self.expr(rv["a"], depth - 1, seen, expand_named))
+                return ("unop", rv["op"], self.expr(rv["a"], depth - 1, seen, expand_named, at=nat))
             if k == "discr":
-                return ("discr", self.expr(rv["pl"], depth - 1, seen, expand_named))
+                return ("discr", self.expr(rv["pl"], depth - 1, seen, expand_named, at=nat))
             if k == "agg":
                 tag = rv.get("adt") or rv.get("agg")
                 if rv.get("agg") == "adt":
                     tag = norm(rv["adt"]) + "::" + rv["variant"]
                 if rv.get("agg") == "closure":
                     tag = "closure:" + rv["closure"]
-                return ("agg", tag, tuple(self.expr(x, depth - 1, seen, expand_named) for x in rv["ops"]))
+                return ("agg", tag, tuple(self.expr(x, depth - 1, seen, expand_named, at=nat) for x in rv["ops"]))
             if k == "repeat":
-                return ("repeat", self.expr(rv["op"], depth - 1, seen, expand_named), rv["n"])
+                return ("repeat", self.expr(rv["op"], depth - 1, seen, expand_named, at=nat), rv["n"])
             return ("rv", k)
         return ("tmp", l)
 
